@@ -489,3 +489,58 @@ VARIANTS["C09"] = [
     R("min-to-max-heuristic", EE, "            min_r: float = min(r)", "            min_r: float = max(r)"),
     R("len-cli-bound", EE, "            for i in range(max_ord):\n                for j in range(i + 1, max_ord):", "            for i in range(len(cli)):\n                for j in range(i + 1, len(cli)):"),
 ]
+
+# ------------------------------------------------------------------------------------------- C11
+AP1 = "self.append_proposal_edges(G, u0, e0, (u0, self.get_other_vertex(v0, e1)))"
+AP2 = "self.append_proposal_edges(G, v0, e1, (v0, self.get_other_vertex(u0, e0)))"
+VARIANTS["C11"] = [
+    R("as-is-two-known-findings", MC, "import random\n", "import random\n\n", known=2),
+    RE("D11-repaired", [(MC, AP1, "self.append_proposal_edges(G, u0, e1, (u0, self.get_other_vertex(v0, e1)))"),
+                        (MC, AP2, "self.append_proposal_edges(G, v0, e0, (v0, self.get_other_vertex(u0, e0)))")], known=0),
+    M("D11-third-way", MC, AP1, "self.append_proposal_edges(G, u0, e0s[0], (u0, self.get_other_vertex(v0, e1)))", "C11.4"),
+    M("revert-D10", MC, "10 * self._network.G.number_of_edges()", "10 * self._network.G.edges()", "C11.3"),
+    M("revert-D12", MC, "                if u0 == v1 or v0 == u1:\n                    # the two motifs share a vertex, the swap would create a self-loop\n                    return False\n", "", "C11.5"),
+    M("half-D12", MC, "if u0 == v1 or v0 == u1:", "if u0 == v1:", "C11.5"),
+    M("no-copy", MC, "G: nx.Graph = self._network.G.copy()", "G: nx.Graph = self._network.G", "C11.1"),
+    M("edgeset-add-dropped", MC, "                    EdgeSet.add(tuple(sorted(e)))\n\n                # remove old edges", "\n                # remove old edges", "C11.9"),
+    M("only-e0-removed", MC, "                    G.remove_edge(*e0)\n                    G.remove_edge(*e1)\n", "                    G.remove_edge(*e0)\n", "C11.8"),
+    M("partner-other-bucket", MC, "            lst: list = hashmap_e1s[topology]\n\n            try:", "            lst: list = hashmap_e1s[list(hashmap_e1s)[0]]\n\n            try:", "C11.7"),
+    M("proposals-not-reset", MC, "        # refresh the list of new edges for this trial\n        self._proposal_edges = []\n", "", "C11.8"),
+    M("suitable-negated", MC, "                if self.is_edge_choice_suitable(\n                    G, u0, v0, u_edges_in_motif, v_edges_in_motif\n                ):\n                    break",
+      "                if not self.is_edge_choice_suitable(\n                    G, u0, v0, u_edges_in_motif, v_edges_in_motif\n                ):\n                    break", "C11.6"),
+    M("swap-negated", MC, "if self.swap_condition(G, u_edges_in_motif, v_edges_in_motif, u0, v0):", "if not self.swap_condition(G, u_edges_in_motif, v_edges_in_motif, u0, v0):", "C11.6"),
+    M("annotations-crossed", MC, "        p._topology = G.edges[old_edge][NetworkNames.TOPOLOGY]\n        p._motif_id = G.edges[old_edge][NetworkNames.MOTIF_IDS]",
+      "        p._topology = G.edges[old_edge][NetworkNames.MOTIF_IDS]\n        p._motif_id = G.edges[old_edge][NetworkNames.TOPOLOGY]", "C11.4"),
+    M("motif-id-test-passes", MC, "                    \"MarkovChainMonteCarlo - paired corners belong to same motif\"\n                )\n                return False", "                    \"MarkovChainMonteCarlo - paired corners belong to same motif\"\n                )", "C11.6"),
+    M("exhausted-search-swaps", MC, "            if search_count >= self._search_limit:", "            if search_count > self._search_limit + 1:", "C11.6"),
+    M("corner-filter-dropped", MC, "            if G.edges[e][NetworkNames.MOTIF_IDS] == motif_id:\n                es.append((u0, self.get_other_vertex(u0, e)))", "            es.append((u0, self.get_other_vertex(u0, e)))", "C11.10"),
+    M("writes-input-attr", MC, "        number_of_edges: int = G.number_of_edges()\n", "        number_of_edges: int = G.number_of_edges()\n        self._network.G.graph[\"rewired\"] = True\n", "C11.1"),
+    M("adds-node", MC, "                    G.add_edge(*e)\n", "                    G.add_node(max(G.nodes()) + 1)\n                    G.add_edge(*e)\n", "C11.2"),
+    M("edgeset-unsorted-fill", MC, "            EdgeSet.add(tuple(sorted(e)))\n\n        convergence_count", "            EdgeSet.add(tuple(e))\n\n        convergence_count", "C11.9"),
+    R("len-edges", MC, "10 * self._network.G.number_of_edges()", "10 * len(self._network.G.edges())"),
+]
+
+# ------------------------------------------------------------------------------------------- C12
+KV = "gcmpy/tools/joint_excess_joint_degree_keys_view.py"
+VARIANTS["C12"] = [
+    M("accessor-u0v1-wrong", KV, "    def get_u0v1(self):\n        return self._keys[0] + self._keys[3]", "    def get_u0v1(self):\n        return self._keys[0] + self._keys[2]", "C12.1"),
+    M("numerator-uses-u0u1", MC, "            u0v1_key: tuple = key_view.get_u0v1()", "            u0v1_key: tuple = key_view.get_u0u1()", "C12.3"),
+    M("handler-continue", MC, "                    f\"MarkovChainMonteCarlo - KeyError during swap condition numerator: {e}\"\n                )\n                return False",
+      "                    f\"MarkovChainMonteCarlo - KeyError during swap condition numerator: {e}\"\n                )\n                continue", "C12.4"),
+    M("comparison-inverted", MC, "if value > random.random():", "if value < random.random():", "C12.4"),
+    M("ratio-inverted", MC, "value: float = (top + 0.0) / bottom", "value: float = (bottom + 0.0) / top", ""),
+    M("excess-incremented", MC, "        us_jd: list = [list(G.nodes[u][NetworkNames.JOINT_DEGREE]) for u in us]\n\n        # grab their excess degrees in topology `index`\n        us_excess_jd: list = []\n        for jd in us_jd:\n            jd[index] -= 1",
+      "        us_jd: list = [list(G.nodes[u][NetworkNames.JOINT_DEGREE]) for u in us]\n\n        # grab their excess degrees in topology `index`\n        us_excess_jd: list = []\n        for jd in us_jd:\n            jd[index] += 1", "C12.2"),
+    M("feed-order-changed", MC, "us: list = [u0, u1, v0, v1]", "us: list = [u0, v0, u1, v1]", "C12.1"),
+    M("numerator-other-topology", MC, "self._ejks.ejks[topology][u0v1_key]", "self._ejks.ejks[self._ejks.topology_names[0]][u0v1_key]", "C12.3"),
+    M("view-index-constant", MC, "self.get_swapped_joint_excess_degree_key(G, e0, e1, u0, v0, index)", "self.get_swapped_joint_excess_degree_key(G, e0, e1, u0, v0, 0)", "C12.3"),
+    M("always-accept", MC, "        if value > random.random():\n            return True\n\n        return False", "        if value > random.random():\n            return True\n\n        return True", "C12.4"),
+    M("denominator-wrong-topology", MC, "self._ejks.ejks[right_topology][key_e1]", "self._ejks.ejks[left_topology][key_e1]", "C12.5"),
+    M("handler-pass", MC, "                    f\"MarkovChainMonteCarlo - KeyError during swap condition numerator: {e}\"\n                )\n                return False",
+      "                    f\"MarkovChainMonteCarlo - KeyError during swap condition numerator: {e}\"\n                )", "C12.4"),
+    M("topindex-off", "gcmpy/tools/joint_excess_joint_degree_matrices.py", "            if name == topology:\n                return i", "            if name == topology:\n                return i + 1", "C12.2"),
+    M("proposals-edited-after-test", MC, "                # add the new proposal edges for both sides\n", "                self._proposal_edges.reverse()\n                self._proposal_edges.pop()\n", "C12.4"),
+    R("zero-test-removed", MC, "            if top == 0.0:\n                return False\n", ""),
+    R("value-inline", MC, "        value: float = (top + 0.0) / bottom\n        if value > random.random():", "        if top / bottom > random.random():"),
+    R("draw-on-left", MC, "if value > random.random():", "if random.random() < value:"),
+]
